@@ -425,6 +425,12 @@ func init() {
 					printSched(runSchedule(fen, "go movetime 120", phase{engine.VsInnerMoveDone, d, nrootOf(fen) - 1}, nil, 130))
 					printSched(runSchedule(fen, "go movetime 120", phase{engine.VsRootMoveDone, d, nrootOf(fen) - 1}, nil, 130))
 					count += 3
+					// depth limit and time limit together: the deadline expires inside the LAST permitted iteration
+					both := fmt.Sprintf("go depth %d movetime 120", d)
+					printSched(runSchedule(fen, both, phase{engine.VsRootMoveDone, d, 1}, nil, 130))
+					printSched(runSchedule(fen, both, phase{engine.VsRootMoveDone, d, nrootOf(fen) / 2}, nil, 130))
+					printSched(runSchedule(fen, both, phase{engine.VsInnerMoveDone, d, nrootOf(fen) - 1}, nil, 130))
+					count += 3
 				}
 			}
 		}
@@ -533,7 +539,10 @@ func init() {
 			for q := 0; q < nq; q++ {
 				kind := r.intn(11)
 				if len(args) > 1 && args[1] == "search" {
-					kind = 6 + r.intn(5) // searches only: completed, ended by the deadline, stopped at a root or an inner node
+					kind = 6 + r.intn(5) // searches: completed, ended by the deadline, stopped at a root or an inner node
+					if r.chance(1, 5) {
+						kind = 2 // and the evaluation, which works in place on the top of the position stack
+					}
 				}
 				switch kind {
 				case 0:
